@@ -10,7 +10,7 @@ from decimal import Decimal
 from . import tlc, tlaval
 from .tlc import MachineryError
 from pony.orm import core
-from pony.orm.core import Database, Required, Optional, Set, db_session, select
+from pony.orm.core import Database, Required, Optional, Set, db_session, select, desc
 
 MODULE = 'PonyCache'
 
@@ -19,7 +19,8 @@ FIXED = dict(DelPop='TRUE', AggrFlushFirst='TRUE', AdaptKeyOriginal='TRUE')
 INVARIANTS = ['TypeOK', 'NoSpuriousError', 'RightTranslator', 'Transparent', 'ForeignUseRaises']
 
 _DEFAULTS = dict(NThreads=1, Fams='{}', SessOps='{}', XUses='{}', WarmSet='<-WarmCold', MinLen=1, MaxLen=1, MaxExec=4, MaxMod=2,
-                 MemoSteps='FALSE', ParamStyles='{"qmark"}', KeyHasTypes='TRUE', CompareFixed='TRUE', SqlKeyHasFixed='TRUE',
+                 MemoSteps='FALSE', ParamStyles='{"qmark"}', KeyHasTypes='TRUE', CompareFixed='TRUE', CompareEarlier='TRUE',
+                 SqlKeyHasFixed='TRUE',
                  FlushClearsResults='TRUE', Export='FALSE')
 
 
@@ -187,12 +188,33 @@ def decode(p):
     return p['v']
 
 
+# base queries that chains extend: one generator code object each, shared by the plain query and all its chains
+def _b_slice(T, p):
+    return select(x.name[:p] for x in T)
+
+
+def _b_getattr(T, p):
+    return select(getattr(x, p) for x in T)
+
+
+def _b_idx(T, p):
+    return select(x.name[p] for x in T)
+
+
+def _b_gt(T, p):
+    return select(x.name for x in T if x.n > p)
+
+
 def _q_slice(T, p):
-    return select(x.name[:p] for x in T)[:]
+    return _b_slice(T, p)[:]
 
 
 def _q_getattr(T, p):
-    return select(getattr(x, p) for x in T)[:]
+    return _b_getattr(T, p)[:]
+
+
+def _q_idx(T, p):
+    return _b_idx(T, p)[:]
 
 
 def _q_cmp(T, p):
@@ -200,7 +222,28 @@ def _q_cmp(T, p):
 
 
 def _q_gt(T, p):
-    return select(x.name for x in T if x.n > p)[:]
+    return _b_gt(T, p)[:]
+
+
+# the lambdas of the chained steps (spec/PonyCacheQueries.tla: StepTable), one code object each
+def _s_f(q, p):
+    return q.filter(lambda v: v != 'zzz')
+
+
+def _s_w(q, p):
+    return q.where(lambda x: x.n is not None)
+
+
+def _s_o(q, p):
+    return q.order_by(lambda v: desc(v))
+
+
+def _s_wp(q, p):
+    return q.where(lambda x: x.id != p)
+
+
+def _s_fs(q, p):
+    return q.filter(lambda v: v[p:] != 'hijkl')
 
 
 def _q_count(T, p):
@@ -231,14 +274,47 @@ def _q_dyn(T, p):
 
 STRQ = "x.name for x in T if x.n > p"
 RAW = {'raw_where': "select name from T where n > $p", 'raw_pct': "select 7 % 4, $p", 'raw_pct2': "select 7 %% 4, $p"}
-ORM = {'slice': _q_slice, 'getattr': _q_getattr, 'cmp': _q_cmp, 'gt': _q_gt, 'count': _q_count, 'm2m': _q_m2m,
+BASES = {'slice': _b_slice, 'getattr': _b_getattr, 'idx': _b_idx, 'gt': _b_gt}
+STEPS = {'f': ('filter', _s_f), 'w': ('where', _s_w), 'o': ('order_by', _s_o), 'wp': ('where', _s_wp), 'fs': ('filter', _s_fs)}
+CHAINS = {}         # query id -> its entry of the spec's table, see load_chains
+ORM = {'slice': _q_slice, 'getattr': _q_getattr, 'idx': _q_idx, 'cmp': _q_cmp, 'gt': _q_gt, 'count': _q_count, 'm2m': _q_m2m,
        'mcount': _q_mcount, 'maxdate': _q_maxdate, 'sumdec': _q_sumdec, 'dyn': _q_dyn}
 
 
-def canon(r):
-    """Answers are compared as bags (no query here has an order_by)."""
+def load_chains(scratch):
+    """The structure of the query chains, from the specification (PonyCacheQueriesTables): which base query, which
+    lambdas in which order.  The harness only supplies one Python code object per base / lambda."""
+    if CHAINS:
+        return CHAINS
+    table, _ = tlc.evaluate('PonyCacheQueriesTables', scratch)
+    for c in table['chains']:
+        steps = c['steps']
+        if steps[0]['code'] not in BASES:
+            raise MachineryError('chain %s of the specification starts with %s, which the harness cannot extend' % (
+                c['query'], steps[0]['code']))
+        for st in steps[1:]:
+            if st['code'] not in STEPS or STEPS[st['code']][0] != st['kind']:
+                raise MachineryError('step %s (%s) of chain %s of the specification is not bound in the harness' % (
+                    st['code'], st['kind'], c['query']))
+    for c in table['chains']:
+        CHAINS[c['query']] = c
+    return CHAINS
+
+
+def build_chain(db, q, v):
+    """The Query object of chain q for parameter value v: base generator, then the lambdas, in the spec's order."""
+    steps = CHAINS[q]['steps']
+    query = BASES[steps[0]['code']](db.T, v)
+    for st in steps[1:]:
+        query = STEPS[st['code']][1](query, v)
+    return query
+
+
+def canon(r, ordered=False):
+    """Answers are compared as bags, unless a step of the chain orders them."""
     if isinstance(r, (list, tuple, core.QueryResult)):
-        return ['bag'] + sorted(repr(tuple(x) if isinstance(x, tuple) else x) for x in r)
+        items = [repr(tuple(x) if isinstance(x, tuple) else x) for x in r]
+        return ['seq'] + items if ordered else ['bag'] + sorted(items)
     return ['val', repr(r)]
 
 
@@ -247,6 +323,8 @@ def execute(db, q, p):
     v = decode(p)
     if q in ORM:
         return canon(ORM[q](db.T, v))
+    if q in CHAINS:
+        return canon(build_chain(db, q, v)[:], CHAINS[q]['ordered'])
     if q == 'strq':
         return canon(select(STRQ, {'T': db.T}, {'p': v})[:])
     return canon(db.select(RAW[q], {}, {'p': v}))
